@@ -309,6 +309,11 @@ ASM_FUNCS = [
     "(fn [x y] (def t @{:x x}) (put t :y y) (length t))", "(fn [x y] (string x \"-\" y \"-%(a)d\"))",
     "(fn [x y] (try (error [x y]) ([e] (get e 1))))", "(fn rec [x y] (if (<= x 0) y (rec (- x 1) (+ y %(b)d))))",
     "(fn [x y] (let [[a b] [y x] {:k k} {:k %(a)d}] (+ a (* 2 b) k)))", "(fn [x y] (match [x y] [1 b] (+ b 100) [a 2] (+ a 200) _ :other))",
+    # every operand-field boundary of the instruction encodings: 8-bit immediates, 16-bit integer loads, long constants, far jumps
+    "(fn [x y] [(+ x -128) (+ x 127) (* y -128) (* y 127) (= x -128) (not= y 127) (< x -128) (> y 127)])",
+    "(fn [x y] [-32768 32767 -32769 32768 (+ x -32768) (max -32768 x) (min 32767 y)])",
+    "(fn [x y] [(+ x -129) (+ x 128) (- x -128) (- y 128) (band x -128) (bor y 127) (blshift x 31) (brshift y 31)])",
+    "(fn [x y] (var r 0) (if (> x y) (do %(pad)s (set r 1)) (do %(pad)s (set r 2))) (while (< r 5) %(pad)s (++ r)) r)",
 ]
 
 
@@ -406,10 +411,10 @@ def run(ctx):
             exp.append((oid, "onstack-env-pads%s" % ("<32" if npad < 29 else ">=32"), setup, drv))
         # asm(disasm f)
         for ci in range(8):
-            p = dict(a=rng.choice([0, 1, 3, 9]), b=rng.choice([1, 2, 5]))
+            p = dict(a=rng.choice([0, 1, 3, 9]), b=rng.choice([1, 2, 5]), pad=" ".join("(+= r %d)" % (i % 7) for i in range(rng.choice([3, 40, 130, 300]))))
             src = rng.choice(ASM_FUNCS) % p
             aid = "a%d" % ci
-            drv = "(fn [f] (string/join (map (fn [args] (string/format \"%%j\" (first (protect (f ;args))))) [[1 2] [0 0] [5 3] [2 2] [-3 7]]) \" \"))"
+            drv = "(fn [f] (string/join (map (fn [args] (let [r (protect (f ;args))] (string/format \"%j\" (if (r 0) r [false :raised])))) [[1 2] [0 0] [5 3] [2 2] [-3 7] [-128 127] [-32768 32768]]) \" \"))"
             lines.append("(do (def orig %s) (def drv %s)\n (report \"%s\" \"orig\" (fn [] (drv orig)))\n (report \"%s\" \"copy\" (fn [] (drv (asm (disasm orig)))))\n"
                          " (report \"%s\" \"copy2-independent\" (fn [] (drv (rt-dict orig)))))" % (src, drv, aid, aid, aid))
             exp.append((aid, "asm-disasm", src, drv))
